@@ -2,6 +2,8 @@ import FitModel.Decode
 import FitProofs.Refine
 import FitProofs.Frame
 import FitProofs.Chain
+import FitProofs.PartialFile
+import FitProps.C01
 /-!
   C11 — truncation and read faults never yield silent success.
 -/
@@ -181,5 +183,154 @@ theorem header_only_consumes_header (P : Profile) (o : Opts) (g : Globals) (data
   rw [heq]
   simp only [runSpec, Nat.zero_add]
   exact hsize
+
+/-! ### the File returned with the error -/
+
+/-- **The partial File holds exactly the complete messages.** Take a frame as a FIT writer lays it
+    out (14-byte header declaring the full record area, file_id definition and data record, further
+    records) and cut it inside a record — after the complete records `done` and `j` bytes of the next
+    record — ending the stream there with EOF or with a reader error, under any read schedule.
+    If the item machine accepts the complete records, `Decode` returns an error, does not panic, and
+    the File it returns has the file_id, file_creator, timestamp_correlation, container and slots
+    (every message of every complete record, nothing of the cut one) that the item machine holds
+    after `done`; the accumulators too. -/
+theorem partial_file_on_cut (P : Profile) (hwf : ProfileWF P = true) (o : Opts) (g : Globals) (proto profile : Nat)
+    (d0 : DefMsg) (b0 : Bool) (fs dev : List Bytes) (done : List Item) (it : Item) (more : List Item) (j : Nat)
+    (r : Reader) (st1 : DecSt)
+    (hp : proto < 256) (hp2 : proto / 16 ≤ protoMajorMax)
+    (hwf0 : DefnWF d0 b0) (hg : d0.global = mnFileId) (hkn : P.known mnFileId = true)
+    (hlen : (serialize (.defn d0 b0 :: .data d0.localT fs dev :: (done ++ it :: more))).length < 4294967296)
+    (hfit : ItemsFitD P (List.replicate 16 none) (.defn d0 b0 :: .data d0.localT fs dev :: (done ++ it :: more)))
+    (hrun : runItems P (afterHeader g proto profile
+      (serialize (.defn d0 b0 :: .data d0.localT fs dev :: (done ++ it :: more))).length).hdr g
+      (.defn d0 b0 :: .data d0.localT fs dev :: done) = .ok st1)
+    (hj : j < (serializeItem it).length)
+    (hdata : r.data = (frameBytes proto profile (serialize (.defn d0 b0 :: .data d0.localT fs dev :: (done ++ it :: more)))).take
+      (14 + ((serialize (.defn d0 b0 :: .data d0.localT fs dev :: done)).length + j))) :
+    (decode P o .full g r).1.err.isSome = true ∧ (decode P o .full g r).1.panic = false ∧
+    (decode P o .full g r).1.st.glob = st1.glob ∧
+    ∀ F1, st1.file = some F1 → ∃ F', (decode P o .full g r).1.st.file = some F' ∧ F'.sameContent F1 := by
+  rw [decode_out_eq_spec, hdata]
+  have hser : serialize (.defn d0 b0 :: .data d0.localT fs dev :: (done ++ it :: more)) =
+      serialize (.defn d0 b0 :: .data d0.localT fs dev :: done) ++ (serializeItem it ++ serialize more) := by
+    have : (Item.defn d0 b0 :: Item.data d0.localT fs dev :: (done ++ it :: more)) =
+        (Item.defn d0 b0 :: Item.data d0.localT fs dev :: done) ++ it :: more := rfl
+    rw [this, serialize_append, serialize_cons it more]
+  have hk : (serialize (.defn d0 b0 :: .data d0.localT fs dev :: done)).length + j ≤
+      (serialize (.defn d0 b0 :: .data d0.localT fs dev :: (done ++ it :: more))).length := by
+    rw [hser]; simp only [List.length_append]; omega
+  rw [frameBytes_take _ _ _ _ hk]
+  have htake : (serialize (.defn d0 b0 :: .data d0.localT fs dev :: (done ++ it :: more))).take
+      ((serialize (.defn d0 b0 :: .data d0.localT fs dev :: done)).length + j) =
+      serialize (.defn d0 b0 :: .data d0.localT fs dev :: done) ++ (serializeItem it).take j := by
+    rw [hser, List.take_append, Nat.add_sub_cancel_left,
+      List.take_of_length_le (by omega : (serialize (.defn d0 b0 :: .data d0.localT fs dev :: done)).length ≤ _),
+      List.take_append_of_le_length (by omega)]
+  rw [htake]
+  obtain ⟨e, he, hfe⟩ := decode_cut_partial P o g proto profile d0 b0 fs dev done it more j r.stop st1 hp hp2 hwf0 hg hkn
+    _ rfl hlen hfit hrun hj
+  have hnp := C01.decodeSpec_never_panics P hwf o .full g (14 :: (hdrTail proto profile
+      (serialize (.defn d0 b0 :: .data d0.localT fs dev :: (done ++ it :: more))).length ++
+      (serialize (.defn d0 b0 :: .data d0.localT fs dev :: done) ++ (serializeItem it).take j))) r.stop
+  rw [he] at hnp ⊢
+  have hfin := finalize_err o e.toOutcome
+  have hst : e.toOutcome.st = e.st := by
+    unfold ErrExit.toOutcome
+    cases e.err <;> rfl
+  have herr : e.err.isSome = true := by
+    cases hee : e.err with
+    | some c => rfl
+    | none =>
+      rw [hfin.2.1] at hnp
+      unfold ErrExit.toOutcome at hnp
+      rw [hee] at hnp
+      cases hnp
+  have hf : e.st.file = st1.file := congrArg Prod.fst hfe
+  have hg' : e.st.glob = st1.glob := congrArg Prod.snd hfe
+  refine ⟨?_, hnp, ?_, ?_⟩
+  · rw [hfin.1]
+    unfold ErrExit.toOutcome
+    cases hee : e.err with
+    | some c => rfl
+    | none => rw [hee] at herr; cases herr
+  · cases hfile : e.toOutcome.st.file with
+    | none =>
+      unfold finalize
+      split
+      · rw [hst]; exact hg'
+      · show e.toOutcome.st.glob = st1.glob
+        rw [hst]; exact hg'
+    | some F =>
+      obtain ⟨_, _, _, h3⟩ := finalize_content o e.toOutcome F hfile
+      rw [h3, hst]; exact hg'
+  · intro F1 hF1
+    have : e.toOutcome.st.file = some F1 := by rw [hst, hf, hF1]
+    obtain ⟨F', h1, h2, _⟩ := finalize_content o e.toOutcome F1 this
+    exact ⟨F', h1, h2⟩
+
+/-! ### non-vacuity -/
+
+/-- a file_id definition with the one field `type` -/
+def exDef : DefMsg := ⟨0, .le, 0, [⟨0, 1, 0⟩], []⟩
+/-- a file_id data record: type = activity -/
+def exRec : Item := .data 0 [[4]] []
+
+def isOk : StepRes → Bool
+  | .ok _ => true
+  | .stop _ => false
+
+theorem exDefs : defsAfter Gen.profile (List.replicate 16 none) (.defn exDef false) =
+    setAt (List.replicate 16 none) 0 (some exDef) := by decide +kernel
+
+theorem exFit : ItemsFitD Gen.profile (List.replicate 16 none) (.defn exDef false :: exRec :: ([exRec] ++ exRec :: [])) := by
+  have hrec : ∀ dm, (setAt (List.replicate 16 (none : Option DefMsg)) 0 (some exDef)).getD 0 none = some dm →
+      FieldsFit dm.fields [[4]] ∧ DevFit dm.dev [] := by
+    intro dm h
+    have : dm = exDef := by
+      have h' : some exDef = some dm := h
+      injection h' with h'
+      exact h'.symm
+    subst this
+    exact ⟨⟨rfl, trivial⟩, trivial⟩
+  refine ⟨⟨by decide, by decide, by decide, ?_, (fun h => by cases h), (fun h => by cases h)⟩, ?_⟩
+  · intro f hf
+    simp only [exDef, List.mem_singleton] at hf
+    subst hf
+    exact ⟨by decide, by decide, by decide⟩
+  · rw [exDefs]
+    exact ⟨⟨by decide, hrec⟩, ⟨by decide, hrec⟩, ⟨by decide, hrec⟩, trivial⟩
+
+set_option maxRecDepth 100000 in
+/-- the premises of `partial_file_on_cut` are satisfiable on the regenerated profile: a frame of a
+    file_id definition and three file_id data records, cut one byte into the third, read through
+    any reader with any options; `Decode` reports an error and returns a File -/
+example (o : Opts) (r : Reader)
+    (hdata : r.data = (frameBytes 0x20 2115 (serialize (.defn exDef false :: exRec :: ([exRec] ++ exRec :: [])))).take
+      (14 + ((serialize (.defn exDef false :: exRec :: [exRec])).length + 1))) :
+    (decode Gen.profile o .full {} r).1.err.isSome = true ∧ (decode Gen.profile o .full {} r).1.panic = false ∧
+    (decode Gen.profile o .full {} r).1.st.file.isSome = true := by
+  have hok : isOk (runItems Gen.profile (afterHeader {} 0x20 2115
+      (serialize (.defn exDef false :: exRec :: ([exRec] ++ exRec :: []))).length).hdr {}
+      (.defn exDef false :: exRec :: [exRec])) = true ∧
+      (match runItems Gen.profile (afterHeader {} 0x20 2115
+        (serialize (.defn exDef false :: exRec :: ([exRec] ++ exRec :: []))).length).hdr {}
+        (.defn exDef false :: exRec :: [exRec]) with
+       | .ok st => st.file.isSome
+       | .stop _ => false) = true := by decide +kernel
+  cases hr : runItems Gen.profile (afterHeader {} 0x20 2115
+      (serialize (.defn exDef false :: exRec :: ([exRec] ++ exRec :: []))).length).hdr {}
+      (.defn exDef false :: exRec :: [exRec]) with
+  | stop _ => rw [hr] at hok; cases hok.1
+  | ok st1 =>
+    rw [hr] at hok
+    have hsome : st1.file.isSome = true := hok.2
+    obtain ⟨h1, h2, _, h4⟩ := partial_file_on_cut Gen.profile C01.gen_wf o {} 0x20 2115 exDef false [[4]] [] [exRec] exRec [] 1 r st1
+      (by decide) (by decide) exFit.1 rfl (by decide +kernel) (by decide +kernel) exFit hr (by decide) hdata
+    refine ⟨h1, h2, ?_⟩
+    cases hf : st1.file with
+    | none => rw [hf] at hsome; cases hsome
+    | some F1 =>
+      obtain ⟨F', hF', _⟩ := h4 F1 hf
+      rw [hF']; rfl
 
 end Fit.Props.C11
